@@ -101,6 +101,13 @@ func infoFromCell(cell *hrpc.Cell) (hrpc.RegionInfo, error) {
 	if regInfo.GetOffline() {
 		return nil, OfflineRegionError{n: string(cell.Row)}
 	}
+	// Region names are ordered with Compare, which relies on them having the
+	// form "table,startkey,id" with a numeric id.
+	first, last := bytes.IndexByte(cell.Row, ','), bytes.LastIndexByte(cell.Row, ',')
+	if first < 0 || first == last || last+1 >= len(cell.Row) ||
+		cell.Row[last+1] < '0' || cell.Row[last+1] > '9' {
+		return nil, fmt.Errorf("invalid region name in %q", cell)
+	}
 	var namespace []byte
 	if !bytes.Equal(regInfo.TableName.Namespace, defaultNamespace) {
 		// if default namespace, pretend there's no namespace
